@@ -190,8 +190,15 @@ pub fn run(run: &mut Run) {
     for d in 1..=depth {
         // the derived fillers of the deepest level are thinned to every k-th program so that the
         // last level stays enumerable; all shallower levels are complete
-        let base: Vec<String> = if d == 3 { prev.iter().step_by(7).cloned().collect() } else { prev.clone() };
+        // (the step is chosen so that the last level has about 6 M programs)
+        let step = (prev.len() * 4 * 190 / 6_000_000).max(7);
+        let base: Vec<String> = if d == 3 { prev.iter().step_by(step).cloned().collect() } else { prev.clone() };
+        crate::core::heartbeat();
         let (progs, sib) = level(&base);
+        crate::core::heartbeat();
+        if d == 3 {
+            run.rep.extra.insert("depth3_filler_step".into(), json!(step));
+        }
         run.sub(&format!("depth{}", d));
         for src in progs.iter().chain(sib.iter()) {
             if !run.take() {
